@@ -27,6 +27,11 @@ impl BatchAccumulator {
 
     pub fn append(&mut self, batch_size: IggyByteSize, items: &[Arc<RetainedMessage>]) {
         assert!(!items.is_empty());
+        if self.messages.is_empty() {
+            // The accumulator is reused after its content has been materialized (or it has been created
+            // for a segment loaded from disk), so the base offset has to follow the first buffered message.
+            self.base_offset = items.first().unwrap().offset;
+        }
         self.current_size += batch_size;
         self.current_offset = items.last().unwrap().offset;
         self.current_timestamp = items.last().unwrap().timestamp;
